@@ -59,7 +59,7 @@ PROPS = {
     "C14": dict(module="C14", suites=["gen"], technique=_T, design_ref="DESIGN.md §8 C14",
                 note="Partial by nature: process boundaries and PYTHONHASHSEED are runtime facts no Lean model exhibits. The model shows there is no input besides (scenario, operations, draws) resp. (parameters, decision stream) and that choosing from sorted(set) is independent of the set's iteration order (for any total order; that Python's str order on service names is one is assumed). The GEN suite decides the runtime part on the implementation: every parameter set is generated in separate processes under PYTHONHASHSEED 0/1/2/random, with and without the recorder; scenario fingerprints and seeded-trajectory hashes must coincide, and the recorded decision stream must reproduce the scenario through the model.",
                 text="C14_sorted_choice_order_independent (sorting any permutation of a set gives the same list: uniqueness of sorted permutations, proved from scratch), C14_subnet_services_mem (the candidate set depends on membership only), determinism of generate / Env.run as functions of their explicit inputs."),
-    "C15": dict(module="C15", extra=["C15Post", "C16Gen", "C15Progress"], suites=["gen"], technique=_T, design_ref="DESIGN.md §8 C15",
+    "C15": dict(module="C15", extra=["C15Post", "C16Gen", "C15Progress", "C15Replay"], suites=["gen"], technique=_T, design_ref="DESIGN.md §8 C15",
                 note="Theorems hold for every decision stream on which the model generator returns; the GEN suite replays the recorded NumPy decisions of the real generator through the model (whole scenario must coincide, no decision left over) and evaluates the Lean postcondition predicate genPostChecks on the implementation's scenario; termination of the real generator is watched by a subprocess kill-timeout. C15_postcondition_checks proves the very predicate the driver evaluates on the implementation's scenario (all 15 checks; the two strict-positivity checks only for specified probabilities: with exploit_probs=None NumPy's random_sample ranges over [0,1), C15_zero_draw_counterexample). Termination: C15_exploit_loop_progress, C15_privesc_loop_progress (the loop repaired by D9 is never stuck once the OS choices pass the count test) and C15_os_choices_exist / C15_os_choice_loop_exits (the re-draw loop can exit for every admitted request) show that every retry loop can always make progress; termination with probability one additionally needs that NumPy gives every draw positive probability (outside the model; the real generator runs under a kill-timeout).",
                 text="C15_subnets_partition, C15_topology_{symmetric,reflexive}, C15_only_dmz_public, C15_counts, C15_exploits, C15_privescs, C15_network, C15_sensitive, C15_hosts_addresses, C15_hosts_wf (exactly one OS, >=1 service, >=1 process, also after _ensure_host_vulnerability), C15_firewall_keys, C15_firewall_rules, C15_firewall_lower_bound (every rule into a network subnet allows >= 1 service: the vulnerability invariant of _ensure_host_vulnerability), C15_host_values, C15_postcondition_checks (the driver's predicate, proved), C15_exploit_loop_progress, C15_privesc_loop_progress, C15_os_choices_exist (pigeonhole arguments), C15_no_division_by_zero."),
     "C16": dict(module="C16", extra=["C16Gen", "C16Solve"], suites=["gen"], technique=_T, design_ref="DESIGN.md §8 C16",
